@@ -268,3 +268,28 @@ PROPS["C12"] = {
     "assumptions": COMMON_ASSUME + ["tokio::select! takes up one ready source at a time (events are sequential)"],
     "design_ref": "DESIGN.md §7 C12",
 }
+
+PROPS["C13"] = {
+    "title": "Session and link lifecycles",
+    "module": "Theorems.C13",
+    "theorems": [
+        "Amqp.SessLife.ending_step",
+        "Amqp.SessLife.end_is_last",
+        "Amqp.SessLife.at_most_one_end",
+        "Amqp.SessLife.peer_end_answered",
+        "Amqp.SessLife.local_end_waits_for_peer",
+        "Amqp.SessLife.error_end_waits_for_peer_end",
+        "Amqp.LinkLife.peer_detach_answered_in_kind",
+        "Amqp.LinkLife.peer_error_reported",
+        "Amqp.LinkLife.answer_error_reported",
+        "Amqp.LinkLife.own_detach_completes",
+        "Amqp.LinkLife.at_most_one_detach",
+    ],
+    "harness": ["life"],
+    "gen_files": ["Amqp/Gen/Fsm.lean", "Amqp/Gen/SessLifeKernels.lean"],
+    "technique": "Lean 4 proof by induction over event sequences (session end handshake) and exhaustive case analysis (link detach handshake) over transition tables generated from the endpoints; engine-level runs of a real client with several sessions and links against a scripted peer that withholds, crosses and provokes ends and detaches; real-time busy-wait probes",
+    "level_text": "Machine-checked for every sequence of events on a mapped session (the peer's end with or without error, other frames of the peer whether the session can act on them or not, the application's end, frames of its links): at most one end is written and nothing follows it on the channel; a peer's end is answered with an end and reported with its error; the application's end keeps the engine (hence the call) waiting through whatever else arrives until the peer's end, whose error is what the caller gets; after ending with an error everything but the peer's end is discarded and the engine stops exactly at that end. For an attached link and either call (detach, close), with or without an earlier detach from the peer and for every answer of the same kind: exactly one detach is written, of the kind the peer used if it detached first (closing answered by closing), the final state is Detached / Closed, and an error attached by the peer is the call's result. The state tables of Session, SessionEngine::end_session (incl. the discard arguments of its waits), Link::on_incoming_detach / send_detach and the arms of detach_with_error / close_with_error are regenerated on every run; the two hand-written compositions are compared with the implementation on generated single-session and single-link scenarios; the property itself (one begin/attach, at most one end/detach and nothing after it per channel/handle, peer's end/detach answered in kind by the next operation, calls return only after the peer's answer, errors propagated, nothing above the ended thing torn down — probed by attaching and sending on every survivor afterwards) is evaluated on multi-session, multi-link scripts.",
+    "level_note": "Trusted: Lean kernel; rs2lean (gen_fsm.rs); hand-written Amqp/SessLife.lean and Amqp/LinkLife.lean compositions; harness + scripted peer. Not modelled: re-attach-then-close after a close crossing a non-closing detach (recorded finding), the attach handshake proper (incomplete-unsettled exchange), link drop via Drop impls (exercised by the runs), the session engine's path when all handles are dropped (exercised by the runs). Two recorded findings remain on the unchanged tree (see known_findings.txt): transfers held back by the session window are overtaken by the link's detach; a close crossing a non-closing detach ends with a stray second detach.",
+    "assumptions": COMMON_ASSUME + ["the peer answers a detach in kind and an end with an end (a conforming peer); tokio mpsc channels are FIFO"],
+    "design_ref": "DESIGN.md §7 C13",
+}
